@@ -268,6 +268,47 @@ def uncontended(ctx, drv, rng):
     ctx.coverage["distinct_nontrivial"] += 1
 
 
+def recurring_id(ctx, rng):
+    """a trace may use a pipeline id again once the earlier pipeline of that name has finished (a recurring job): both are pipelines of the run, each is
+    counted as arrived and as completed once, and the latencies are those of both"""
+    from eudoxia.workload import Workload
+    from eudoxia.workload.pipeline import Pipeline, Segment
+    from eudoxia.utils import Priority
+    tps = rng.choice([1, 2, 4])
+    algo = rng.choice(["naive", "priority", "overbook"])
+    prio = rng.choice(list(Priority))
+    durs = [rng.randint(1, 4), rng.randint(5, 9), rng.randint(1, 3)]
+    names = ["nightly", "other", "nightly"]
+    pls = []
+    for nm, k in zip(names, durs):
+        p = Pipeline(nm, prio)
+        op = p.new_operator(None)
+        op.add_segment(Segment(baseline_cpu_seconds=k / tps, cpu_scaling="const", memory_gb=0.5, storage_read_gb=0))
+        pls.append(p)
+    gap = durs[0] + 3
+    at = {0: [pls[0]], 1: [pls[1]], gap + 1: [pls[2]]}
+
+    class W(Workload):
+        def __init__(self):
+            self.t = 0
+        def run_one_tick(self):
+            self.t += 1
+            return at.get(self.t - 1, [])
+
+    params = {"duration": (gap + 1 + durs[2] + durs[1] + 6) / tps, "ticks_per_second": tps, "num_pools": 2, "cpus_per_pool": 8, "ram_gb_per_pool": 64,
+              "multi_operator_containers": True, "allow_memory_overcommit": algo == "overbook"}
+    stats, rec = layer_m.run_recorded(params, algo, W())
+    ctx.coverage["evaluations"] += 1
+    ctx.sit("runs_with_a_recurring_pipeline_id")
+    lat = [(d - 1) / tps for d in durs]      # recorded latency = finish tick - arrival tick (`Sweep.sweep`): an operator of d ticks arriving in tick a finishes in tick a + d - 1
+    a = stats.pipelines_all
+    if a.arrival_count != 3 or a.completion_count != 3 or abs(a.mean_latency_seconds - sum(lat) / 3) > 1e-9:
+        return viol(ctx, "recurring-id", f"three uncontended one-operator pipelines of {durs} ticks, the third re-using the id of the first after it finished "
+                                         f"({algo}, {tps} ticks/s): arrivals {a.arrival_count}, completions {a.completion_count} (3 expected), mean latency "
+                                         f"{a.mean_latency_seconds} ({sum(lat) / 3} expected)", {"algo": algo, "tps": tps, "durs": durs})
+    ctx.coverage["distinct_nontrivial"] += 1
+
+
 def run(ctx):
     rng = random.Random(ctx.seed)
     drv = Driver()
@@ -277,6 +318,8 @@ def run(ctx):
         layer_m.FLAG_RESUME = False
         for _ in range(40 if ctx.quick() else 400):
             uncontended(ctx, drv, rng)
+        for _ in range(6 if ctx.quick() else 40):
+            recurring_id(ctx, rng)
         for _ in range(60 if ctx.quick() else 600):
             preempt_run(ctx, drv, rng)
     finally:
